@@ -6,6 +6,18 @@ sys.path.insert(0, os.path.dirname(os.path.abspath(__file__)))
 
 PY = "/venv/bin/python -m verifsim.run"
 CHECKS = {
+ "C01": dict(level="exploration", engine="loopsim", ref="5/C01",
+    technique="deterministic simulation: real bob CLI under a virtual-time event loop with seeded step completion order, over seeded edit histories; clean-build oracle by independent tree serialisation",
+    text="Seeded edit histories of generated projects, each edit followed by an incremental build under a seeded schedule (-j1..4, develop/release); every package result is compared with a from-scratch build of the same state and repeated builds must execute nothing (observed at the subprocess seam). Sampling, not proof.",
+    note="Generated step scripts are deterministic/idempotent by construction; weakly consumed variables are kept out of the transcripts (Bob documents that they do not trigger rebuilds)."),
+ "C05": dict(level="fault_enumeration", engine="loopsim", ref="5/C05",
+    technique="deterministic simulation with fault injection: script exit/kill at command k, Bob killed at numbered kill points (every state save, fs mutation, seam call), SIGINT at virtual time t; recovery compared with clean build",
+    text="One to three aborted invocations (script failure, script+Bob kill, Bob kill at sim point k, SIGINT) followed by a fault-free build that must succeed, equal the clean build and leave a consistent state; enumeration cases try every kill point of the aborted invocation (thorough) or an evenly spaced sample (quick) from the same restored workspace.",
+    note="Kill = os._exit at an operation boundary of the Bob process (scripts run atomically at one virtual instant); power loss is C10's subject."),
+ "C06": dict(level="exploration", engine="loopsim", ref="5/C06",
+    technique="deterministic simulation: seeded virtual-time schedules of the real builder (-jN, -k, failing steps) with history monitors, plus the real JobServerSemaphore driven by task scripts and a foreign token user on a real pipe",
+    text="Layer 1 monitors concurrency bound, dependency order, once-only execution, failure confinement, equality with the sequential build and token conservation over seeded schedules of generated DAGs; layer 2 explores acquire/release interleavings of the token semaphore (internal and external mode) with invariants after every step. Sampling, not proof.",
+    note="A script's effect is atomic at the start or end of its virtual interval; for a failing checkout the keep-going completeness rule is not asserted (Build-Id calculation above it fails by design)."),
  "C09": dict(level="fault_enumeration", engine="procsim", ref="5/C09",
     technique="deterministic simulation: seeded one-fs-op-at-a-time scheduling of real uploader/mirror/reader processes with SIGKILL and errno injection at every sim point",
     text="Seeded exploration of process interleavings on one LocalArchive directory with an invariant evaluated on the real directory after every scheduler step; in enumeration cases every sim point of the chosen actor is killed in turn (exhaustive per sampled world/schedule). Sampling, not proof.",
